@@ -19,6 +19,13 @@ func init() {
 		Gen: func(t *rapid.T) *Case {
 			c := genS1(t, "C14", c14, true)
 			c.Class = "S1x"
+			// a third of the programs fail at run time for the runs whose own input makes them (division by
+			// the run's number): a run that ended without output must leave nothing behind for the others
+			failsForZero := rapid.IntRange(0, 2).Draw(t, "fails_for_n_zero") == 0
+			if failsForZero {
+				o := &c.Program.Outputs[0]
+				o.E.Fields = append(o.E.Fields, ir.F("rt", ir.Op("/", ir.Lit(int64(100)), ir.Ref("input", "n"))))
+			}
 			k := rapid.IntRange(2, 4).Draw(t, "nclients")
 			for i := 0; i < k; i++ {
 				doc := ir.Doc{}
@@ -28,6 +35,9 @@ func init() {
 				// every run is recognisable by its own tag and number
 				doc["tag"] = fmt.Sprintf("run%d", i)
 				doc["n"] = int64(rapid.IntRange(0, 9).Draw(t, "client_n"))
+				if failsForZero && rapid.IntRange(0, 2).Draw(t, "client_n_zero") == 0 {
+					doc["n"] = int64(0)
+				}
 				doc["flag"] = rapid.Bool().Draw(t, "client_flag")
 				cl := harness.ClientSpec{Name: fmt.Sprintf("c%d", i), Input: map[string]any(doc)}
 				if i > 0 && rapid.IntRange(0, 2).Draw(t, "sequential") == 0 {
